@@ -24,9 +24,10 @@
      the OR over the pieces).
    * TreeSplitRun.v: whole token lists related by [splits], under the side condition that every cut token is
      processed in a covered state ([tree_split_run_partial]); the list of what is not covered is in its header.
+   * TreeSplitTable.v: the flush of the pending table text when it is white space only.
    NOT PROVED
-   * the table-text machinery (the pending lists differ by [(a++b)] / [a; b]: the state equivalence has to identify
-     them and the flush - foster-parenting or plain insertion per entry - has to be shown to build the same DOM);
+   * the rest of the table-text machinery (the pending lists differ by [(a++b)] / [a; b]: the relation between the
+     two runs has to identify them between the cut and the flush; the foster-parenting branch of the flush);
      the early modes that split off leading white space (SplitWhitespace: the runs of a ++ b are not the runs of a
      followed by the runs of b when a run spans the cut; dropped white space is dropped in both); foster parenting,
      template current nodes, foreign content, "in cell".  NUL characters are separate tokens.
